@@ -214,7 +214,7 @@ Internal ==
     /\ l <= Len(TraceLog)
     /\ UNCHANGED <<l, tp>>
     /\ \/ Step(InitLockEn(st), InitLockDo(st))
-       \/ Step(LaunchExtEn(st) /\ LaunchExtExec(st) = "none", LaunchExtDo(st))
+       \/ Step(CreateExtEn(st), CreateExtDo(st))
        \/ Step(LaunchRuntimeEn(st) /\ LaunchRuntimeExec(st) = "none", LaunchRuntimeDo(st))
        \/ Step(AfterRuntimeReadyEn(st), AfterRuntimeReadyDo(st))
        \/ Step(AgentsReadyEn(st), AgentsReadyDo(st))
